@@ -62,8 +62,9 @@ def report(chk, rows, what):
         # disagreement with the handles the specification predicts: the property itself speaks about the two roles and about pairing;
         # with several non-empty callbacks the order in which callbacks run is a wire matter (C18), so the prediction is binding for
         # programs with at most one non-empty callback only
+        # (which handle a commit call returns is compared between the two roles above; the property does not number the commitments)
         if r["bad"] and not multi_callback(r["program"]):
-            bad += r["bad"]
+            bad += [b for b in r["bad"] if '"commit"' not in b]
         if bad:
             chk.violation("%s-%s-%s" % (what, r["curve"], r["program"].get("id", "")),
                           {"curve": r["curve"], "program": r["program"], "observed": {k: r[k] for k in ("pres", "vres", "decode")}, "mismatch": bad},
